@@ -12,6 +12,9 @@
 //	                            statement (lexer, parser, constructor fast paths, node/binary.go dispatch)
 //	                            in the syntactic shape S (see scriptOps); uncaught throw / Go panic
 //	                            observed at top level
+//	{"k":"sctxs","shape":"v"|"l","l":V}   the ten boolean contexts as script statements
+//	{"k":"suns","shape":"v"|"l","l":V}    the unary operators as script statements
+//	{"k":"casts","l":V} / {"k":"scasts","shape":..,"l":V}   (int) and (float): call node / script
 //	{"k":"iface"}               the interface-implementation table (reflection)
 //
 // pair/same/uns answers carry "orc": the graphs of strconv.ParseFloat, strconv.FormatFloat
@@ -312,6 +315,65 @@ func scriptOps(l, r *V, shape string) []Obs {
 			return nil
 		}
 		res = append(res, runStmt(src))
+	}
+	return res
+}
+
+// boolean contexts and unary operators / casts written as SCRIPT statements; the operand is a
+// variable (shape "v") or a parenthesised literal (shape "l")
+func scriptCtxs(v *V, shape string) []Obs {
+	ls, ok := lit(v)
+	if !ok {
+		return nil
+	}
+	pre, x := "$l = "+ls+";\n", "$l"
+	if shape == "l" {
+		pre, x = "", "("+ls+")"
+	}
+	stmts := map[string]string{
+		"if":      "if (" + x + ") { c03_emit(true); } else { c03_emit(false); }",
+		"elseif":  "if (false) { c03_emit(false); } elseif (" + x + ") { c03_emit(true); } else { c03_emit(false); }",
+		"while":   "$h = false; while (" + x + ") { $h = true; break; } c03_emit($h);",
+		"dowhile": "$n = 0; do { $n = $n + 1; if ($n > 1) { break; } } while (" + x + "); c03_emit($n > 1);",
+		"for":     "$h = false; for (; " + x + "; ) { $h = true; break; } c03_emit($h);",
+		"ternary": "c03_emit(" + x + " ? true : false);",
+		"not":     "c03_emit(!" + x + ");",
+		"land":    "c03_emit(" + x + " && true);",
+		"lor":     "c03_emit(" + x + " || false);",
+		"cast":    "c03_emit((bool)" + x + ");",
+	}
+	var res []Obs
+	for _, op := range ctxOps {
+		o := runStmt(pre + stmts[op] + "\n")
+		if o.Out == "val" && o.V != nil && o.V.K == "bool" {
+			b := o.V.B
+			if op == "not" {
+				b = !b
+			}
+			o = Obs{Out: "bool", B: b}
+		} else if o.Out == "val" {
+			o = Obs{Out: "nonbool", V: o.V}
+		}
+		res = append(res, o)
+	}
+	return res
+}
+
+var castOps = []string{"int", "float"}
+
+func scriptUns(v *V, shape string, ops []string) []Obs {
+	ls, ok := lit(v)
+	if !ok {
+		return nil
+	}
+	pre, x := "$l = "+ls+";\n", "$l"
+	if shape == "l" {
+		pre, x = "", "("+ls+")"
+	}
+	sym := map[string]string{"neg": "-", "not": "!", "bnot": "~", "int": "(int)", "float": "(float)"}
+	var res []Obs
+	for _, op := range ops {
+		res = append(res, runStmt(pre+"c03_emit("+sym[op]+x+");\n"))
 	}
 	return res
 }
@@ -649,6 +711,38 @@ func runCase(c Case) (o Obs) {
 		res.RL = scriptOps(c.R, c.L, c.Shape)
 		if res.LR == nil {
 			return Obs{Out: "skip"}
+		}
+		return res
+	case "sctxs":
+		r := scriptCtxs(c.L, c.Shape)
+		if r == nil {
+			return Obs{Out: "skip"}
+		}
+		return Obs{Out: "ctxs", LR: r}
+	case "suns":
+		r := scriptUns(c.L, c.Shape, unOps)
+		if r == nil {
+			return Obs{Out: "skip"}
+		}
+		return Obs{Out: "uns", LR: r, Orc: oracleFor(c.L)}
+	case "scasts":
+		r := scriptUns(c.L, c.Shape, castOps)
+		if r == nil {
+			return Obs{Out: "skip"}
+		}
+		return Obs{Out: "casts", LR: r, Orc: oracleFor(c.L)}
+	case "casts":
+		// (int) / (float): the registered conversion functions through the call node
+		res := Obs{Out: "casts", Orc: oracleFor(c.L)}
+		for _, name := range castOps {
+			name := name
+			res.LR = append(res.LR, safe(func() Obs {
+				fn, ok := vm.GetFunc(name)
+				if !ok {
+					return Obs{Out: "panic", Msg: "no function " + name}
+				}
+				return finish(node.NewCallExpression(from, name, []data.GetValue{opnd(c.L)}, fn).GetValue(ctx))
+			}))
 		}
 		return res
 	case "same":
